@@ -19,7 +19,7 @@ func verifIdx(l int) []int {
 		}
 		return r
 	}
-	cand := []int{0, 1, 7, 8, 9, l - 10, l - 9, l - 8, l - 2, l - 1}
+	cand := []int{0, 1, 7, 8, 9, 255, 256, 257, l - 10, l - 9, l - 8, l - 2, l - 1}
 	seen := map[int]bool{}
 	var r []int
 	for _, c := range cand {
@@ -34,13 +34,21 @@ func verifIdx(l int) []int {
 func TestVerifC39(t *testing.T) {
 	maxLen := mc.Pick(96, 512)
 	depth := mc.Pick(2, 3)
+	// every length up to maxLen, plus lengths around the byte-index width (256) and the statement's upper end
+	var lengths []int
+	for l := 1; l <= maxLen; l++ {
+		lengths = append(lengths, l)
+	}
+	if maxLen < 512 {
+		lengths = append(lengths, 255, 256, 257, 264, 300, 511, 512)
+	}
 	fills := []byte{0x00, 0xff, 0xa5}
 	masks := []byte{0x00, 0xff, 0x5a, 0x81}
 	mc.Run(t, mc.Config{ID: "C39", Name: "C39-bitvector", MaxDev: -1, Params: map[string]interface{}{
-		"lengths": fmt.Sprintf("1..%d", maxLen), "extra_backing_bytes": []int{0, 1, 2}, "fill": fills, "mask_bytes": masks, "depth": depth,
+		"lengths": fmt.Sprintf("1..%d plus 255,256,257,264,300,511,512", maxLen), "extra_backing_bytes": []int{0, 1, 2}, "fill": fills, "mask_bytes": masks, "depth": depth,
 		"indices": "all for len<=10, else {0,1,7,8,9,l-10,l-9,l-8,l-2,l-1}"}},
 		func(x *mc.X) {
-			l := 1 + x.Choose(maxLen)
+			l := lengths[x.Choose(len(lengths))]
 			extra := x.Choose(3)
 			fill := fills[x.Choose(len(fills))]
 			need := (l + 7) / 8
